@@ -271,8 +271,16 @@ def scalar_ufunc(ufunc, method, *inputs, **kw):
 def dispatch_function(func, args, kwargs):
     if func in HANDLED:
         return HANDLED[func](*args, **kwargs)
+    def strip(x):
+        if is_sym(x):
+            return _obj(x)           # 0-d object cell: stops NumPy from dispatching back to the scalar's hook
+        if isinstance(x, SymArray):
+            return x.view(np.ndarray)
+        if isinstance(x, (list, tuple)):
+            return type(x)(strip(y) for y in x)
+        return x
     try:
-        r = func(*plain(args), **{k: plain(v) for k, v in kwargs.items()})
+        r = func(*strip(args), **{k: strip(v) for k, v in kwargs.items()})
     except (TypeError, AttributeError) as ex:
         # NumPy's own implementation choking on object cells is a modelling gap, not behaviour of the code under analysis
         # (which may well swallow it in a broad `except Exception`)
@@ -395,6 +403,18 @@ def _where(c, a=None, b=None):
     f = np.frompyfunc(lambda cc, x, y: ite(_b(cc), x, y) if is_sym(cc) else (x if cc else y), 3, 1)
     r = f(c, _obj(a), _obj(b))
     return SymArray(r) if isinstance(r, np.ndarray) else r
+
+
+def fork_where(c, a=None, b=None):
+    """np.where that forks on every symbolic condition cell instead of building If-terms (keeps later terms simple
+    at the price of paths); selectable per harness through NPProxy(where=fork_where)"""
+    if a is None:
+        return _where(c)
+    c2, a2, b2 = np.broadcast_arrays(np.asarray(_obj(c), dtype=object), np.asarray(_obj(a), dtype=object), np.asarray(_obj(b), dtype=object))
+    out = np.empty(c2.shape, dtype=object)
+    for ix in np.ndindex(c2.shape):
+        out[ix] = a2[ix] if bool(c2[ix]) else b2[ix]
+    return SymArray(out) if out.ndim else out[()]
 
 
 def _along(fn, a, axis):
